@@ -22,6 +22,7 @@ A_ACC = 1e-3  # relative allowance on accelerations (post-solver / M^-1 conditio
 A_TIME = 2.5e-7  # time: exact for dyadic timesteps, 1 float32 ulp otherwise
 
 MAX_PENETRATION = 0.03  # contacts deeper than this are stiff: MJWarp's tolerance (>=1e-6) vs MuJoCo's 1e-8 dominates
+MAX_EFC_D = 1e10  # a constraint whose inverse weight is ~0 gets D=1/mjMINVAL: forces ~1e17, meaningless in float32
 OVF_ITER = (1 << 9) | (1 << 10)
 OVF_CAP = (1 << 0) | (1 << 1) | (1 << 2) | (1 << 3) | (1 << 4) | (1 << 5) | (1 << 8)
 
@@ -62,6 +63,7 @@ def mj_extract(mjm, mjd):
     "qacc": mjd.qacc,
     "struct": np.array([mjd.ne, mjd.nf, mjd.nl, mjd.nefc, mjd.ncon], dtype=np.float64),
     "mindist": np.array([float(mjd.contact.dist.min()) if mjd.ncon else 0.0]),
+    "maxD": np.array([float(mjd.efc_D.max()) if mjd.nefc else 0.0]),
     "niter": np.array([_niter(mjd)], dtype=np.float64),
     "sensordata": mjd.sensordata,
     "energy": mjd.energy,
@@ -335,6 +337,8 @@ def judge_world(rec, mjm, got, w, st, ref, noise, prefix="", ctx="", a_acc=A_ACC
       why = "iteration limit reached"
     elif ref["mindist"][0] < -MAX_PENETRATION:
       why = "deep penetration (stiff, solver-tolerance dominated)"
+    elif ref["maxD"][0] > MAX_EFC_D:
+      why = "degenerate constraint (efc_D beyond float32 reach: zero inverse weight)"
     if why is not None:
       rec.count("worlds_ungated")
       rec.count("ungated:" + why.split(" mujoco=")[0])
